@@ -805,7 +805,33 @@ pub fn normalise(g: &mut VolGeom) {
 
 pub const VALID_PART_TYPES: [u8; 5] = [0x04, 0x06, 0x0E, 0x0B, 0x0C];
 
+/// Short names on a FAT volume are upper case; specs written before the reference grammar
+/// upper-cased the ISO-8859-1 letters (older corpus files) are brought into that form.
+fn upper_names(slots: &mut [Slot]) {
+    for s in slots.iter_mut() {
+        match s {
+            Slot::File { name, .. } => {
+                for b in name.iter_mut() {
+                    *b = crate::names::latin1_upper(*b);
+                }
+            }
+            Slot::Dir { name, children, .. } => {
+                for b in name.iter_mut() {
+                    *b = crate::names::latin1_upper(*b);
+                }
+                upper_names(children);
+            }
+            Slot::Raw(_) => {}
+        }
+    }
+}
+
 pub fn mkfs(spec: &DiskSpec) -> (Image, Vec<PVol>) {
+    let mut spec = spec.clone();
+    for v in spec.vols.iter_mut().flatten() {
+        upper_names(&mut v.root);
+    }
+    let spec = &spec;
     // first pass: layouts
     let mut cur: u32 = 1;
     let mut lays: Vec<Option<(Layout, VolSpec)>> = Vec::new();
